@@ -332,10 +332,7 @@ func c01Service(r *hx.Result, rng *hx.Rng, nOps int, signed bool) error {
 	r.NextCase()
 	dir := hx.TempDir("c01svc")
 	defer os.RemoveAll(dir)
-	keyDir := filepath.Join(os.Getenv("VERIF_REPO_DIR"), "test", "signer")
-	if os.Getenv("VERIF_REPO_DIR") == "" {
-		keyDir = "/repo/test/signer"
-	}
+	keyDir := filepath.Join(repoDir(), "test", "signer")
 	opts := server.DefaultOptions().WithDir(filepath.Join(dir, "srv")).
 		WithMetricsServer(false).WithWebServer(false).WithPgsqlServer(false).WithLogfile(filepath.Join(dir, "srv.log"))
 	if signed {
